@@ -26,7 +26,7 @@ RULE = ("plan = object of one of the four classes (Vector of any kind, DataFrame
         "label and contains '...' iff cut; ListOfDicts text is the JSON of head(max_items) plus the total iff cut; GeoJSON "
         "geometry cells render as <Type>. Non-trivial: ≥ 2 columns wrapping into ≥ 2 blocks, or a wide/combining character, "
         "or rows cut, or a 0-row / 0-column shape. Distinct = plan hash.")
-CASES = {"quick": 1000, "thorough": 12000}
+CASES = {"quick": 1500, "thorough": 12000}
 FUZZ_RUNS = {"thorough": 20000}     # coverage-guided leg, 8 processes (vlib/fuzz.py)
 
 WIDE = ["日本", "한글", "ａｂ", "é", "a​b", "😀", "ﬁ", "İ"]
@@ -79,7 +79,7 @@ def _settings(draw):
 
 @st.composite
 def _plan(draw, big):
-    cls = draw(st.sampled_from(["frame", "frame", "frame", "vector", "geojson", "lod"]))
+    cls = draw(st.sampled_from(["frame", "frame", "frame", "vector", "vector", "geojson", "lod"]))
     ctrl = draw(st.integers(0, 5)) == 0
     plan = {"cls": cls, "ctrl": ctrl, "settings": draw(_settings())}
     if cls in ("frame", "geojson"):
@@ -88,7 +88,7 @@ def _plan(draw, big):
         names = draw(st.lists(st.sampled_from(NAMES), min_size=k, max_size=k, unique=True))
         cols = []
         for nm in names:
-            kind = draw(st.sampled_from(["f", "i", "b", "s", "s", "u", "d", "t", "td", "o", "ob", "y"]))
+            kind = draw(st.sampled_from(["f", "i", "b", "s", "s", "u", "d", "t", "td", "o", "ob", "y", "f32", "i8", "u8", "tm", "ts"]))
             cols.append({"name": nm, "kind": kind, "vals": draw(_col_vals(kind, n, ctrl))})
         plan["frame"] = {"n": n, "cols": cols}
         if cls == "geojson":
@@ -97,7 +97,7 @@ def _plan(draw, big):
         plan["opts"] = {"max_rows": draw(st.sampled_from(OPT)), "max_width": draw(st.sampled_from(OPT + [30, 60])),
                         "truncate_width": draw(st.sampled_from(OPT))}
     elif cls == "vector":
-        kind = draw(st.sampled_from(["f", "f", "i", "b", "s", "u", "d", "t", "td", "o", "oi", "y"]))
+        kind = draw(st.sampled_from(["f", "f", "i", "b", "s", "s", "u", "d", "t", "td", "o", "oi", "y", "f32", "i8", "u8", "tm", "ts", "ob"]))
         n = draw(st.integers(0, 30 if big else 12))
         plan["kind"] = kind
         plan["vals"] = draw(_col_vals(kind, n, ctrl))
@@ -250,6 +250,18 @@ def check(plan, ctx):
     _apply_settings(plan["settings"])
     cls, opts = plan["cls"], dict(plan["opts"])
     ctx.cls("cls_" + cls, "ctrl" if plan["ctrl"] else "layout_checked")
+    ctx.cls(*("setting_" + k for k in plan["settings"]), *("opt_" + k for k, v in plan["opts"].items() if v is not None))
+    if cls in ("frame", "geojson"):
+        ctx.cls(*("colkind_" + c["kind"] for c in plan["frame"]["cols"]))
+        mr = plan["opts"].get("max_rows") or plan["settings"].get("PRINT_MAX_ROWS", 100)
+        if plan["frame"]["n"] > mr:
+            ctx.cls("rows_cut")
+        if any(isinstance(v, str) and ("\n" in v or len(v) > 36) for c in plan["frame"]["cols"] for v in c["vals"]):
+            ctx.cls("multiline_or_long_cell")
+        if any(isinstance(v, str) and any(ord(ch) > 0x2e7f for ch in v) for c in plan["frame"]["cols"] for v in c["vals"]):
+            ctx.cls("wide_or_astral_characters")
+    elif cls == "vector":
+        ctx.cls("veckind_" + plan["kind"], "vec_len0" if not plan["vals"] else "vec_lenN")
     if cls in ("frame", "geojson"):
         data = build.frame(plan["frame"], rid=None)
         if cls == "geojson":
